@@ -903,6 +903,8 @@ class UserCellsImpl(CellsImpl):
         if oldsrc != newsrc:
             self.model.clear_obj(self)
             self.altfunc.notify()
+            # the cells derived from this one share the formula object
+            self.spmgr.update_subs(self.parent)
 
     def set_doc(self, doc, insert_indents=False):
 
